@@ -1,5 +1,6 @@
 """canonical, JSON-able forms of everything the oracles compare (no ids, no addresses)"""
 
+import collections.abc
 import enum
 import hashlib
 import json
@@ -38,11 +39,13 @@ def canon(obj):
         return obj
     if isinstance(obj, BaseException):
         return {"!exc": type(obj).__name__}
-    if isinstance(obj, dict):
-        # a mapping: two dicts with the same pairs are equal in Python whatever their insertion order
+    if isinstance(obj, collections.abc.Mapping):
+        # a mapping (dict, mapping proxy, ...): two dicts with the same pairs are equal in Python whatever their insertion order
         return {"!dict": sorted(([canon(k), canon(v)] for k, v in obj.items()), key=lambda pair: dumps(pair[0]))}
     if isinstance(obj, (list, tuple)):
         return [canon(x) for x in obj]
+    if isinstance(obj, (set, frozenset)):
+        return {"!set": sorted((canon(x) for x in obj), key=dumps)}
     if attrs.has(type(obj)):
         return {
             "!cls": type(obj).__name__,
